@@ -16,13 +16,13 @@ import c04
 import rel
 from common import Check, harness, seed
 
-FEATS = '{"type","enum","allof","allofmsg","method","url","rpc"}'
+FEATS = '{"type","enum","allof","allofmsg","method","url","rpc","nested"}'
 
 
 def schema_projection(cat):
     """only what C12 talks about: every schema's children (key, inheritedFrom) in order"""
     def kids(sv):
-        return [(c["key"], c["inh"], c["tt"], c["type"]) for c in (sv or {}).get("children", [])]
+        return [(c["key"], c["inh"], c["tt"], c["type"], c.get("kids", [])) for c in (sv or {}).get("children", [])]
     res = {"types": {t["name"]: kids(t["schema"]) for t in cat["types"]}}
     for i in cat["interactions"]:
         for r in i.get("request") or []:
@@ -69,13 +69,16 @@ def main(tier):
     docs = []
     for i, (n, mb) in enumerate([(15000, 4), (15000, 6)] if thorough else [(1500, 4), (1500, 6)]):
         docs += c04.gen_docs(chk, n, mb, seed() * 100 + 20 + i, features=FEATS, workers=8 if thorough else 4)
+    # dense type graphs (no interactions): chains, nested objects with their own allOf, shared bases
+    for i, (n, mb) in enumerate([(20000, 5), (10000, 6)] if thorough else [(2500, 5)]):
+        docs += c04.gen_docs(chk, n, mb, seed() * 100 + 25 + i, features='{"type","enum","allof","nested"}', workers=8 if thorough else 4)
     cases, meta, rej = [], {}, {}
     withallof = 0
     for n, m in enumerate(docs):
         if not m["valid"]:
             continue
         d = m["doc"]
-        uses = any(b["t"] == "type" and b["body"]["allOf"] for b in d) or "allOf\": [\"" in json.dumps(d)
+        uses = any(b["t"] == "type" and b["body"]["allOf"] for b in d) or "allOf\": [\"" in json.dumps(d) or '"nobj"' in json.dumps(d)
         if not uses:
             continue
         withallof += 1
@@ -83,6 +86,10 @@ def main(tier):
         cid = "a%d" % n
         cases.append(rel.case(cid, text))
         meta[cid] = (m, text)
+        # the same document with its blocks in reverse order: every schema must list the same children
+        rtext = apidoc.render(d[::-1])[0]
+        cases.append(rel.case("r%d" % n, rtext))
+        meta["r%d" % n] = (m, rtext)
         for nm, rd in reject_variants(d):
             rid = "x%d_%s" % (n, nm)
             t = apidoc.render(rd)[0]
